@@ -143,8 +143,10 @@ Qed.
 (* ------------------------------------------------------------------ the development *)
 Section Correct.
   Variable content_of : modid -> stamp -> content.
+  Variable view_of : modid -> stamp -> content.
   Variable imports : modid -> content -> opts -> list modid.
   Variable probes : modid -> content -> opts -> list modid.
+  Variable implicits : modid -> content -> opts -> list modid.
   Variable analyze : list modid -> (modid -> content) -> opts -> (modid -> option ihash) -> modid -> result.
   Variable sccs_of : list (modid * list modid) -> list (list modid).
   Variable reach : list (modid * list modid) -> modid -> modid -> bool.
@@ -158,7 +160,8 @@ Section Correct.
      reports as indirect dependencies. *)
   Definition ext_reads (S : list modid) (src : modid -> content) (o : opts) (env : modid -> option ihash)
              (m d : modid) : Prop :=
-    ~ In d S /\ (In d (imports m (src m) o ++ probes m (src m) o) \/ In d (r_indirect (analyze S src o env m))).
+    ~ In d S /\ (In d (imports m (src m) o ++ probes m (src m) o) \/ In d (implicits m (src m) o) \/
+                 In d (r_indirect (analyze S src o env m))).
   (* analyze is a function of the SET of members, their sources, the options and the lower interfaces it reads
      (recorded violation: F10, the member ORDER matters to the real checker) *)
   Hypothesis an_ext : forall S S' src src' o env env',
@@ -169,6 +172,10 @@ Section Correct.
     In m S -> In d (r_indirect (analyze S src o env m)) -> In d S \/ env d <> None.
   Hypothesis an_noself : forall S src o env m, ~ In m (r_indirect (analyze S src o env m)).
   Hypothesis an_nonzero : forall S src o env m, r_iface (analyze S src o env m) <> 0.
+  (* an implicit reference that resolves (the module is visible) is reported as an indirect dependency *)
+  Hypothesis an_implicit_reported : forall S src o env m d,
+    In m S -> In d (implicits m (src m) o) -> ~ In d S -> env d <> None ->
+    In d (imports m (src m) o ++ probes m (src m) o) \/ In d (r_indirect (analyze S src o env m)).
 
   (* ---- the graph-algorithm contract *)
   Definition graph_ok (dm : list (modid * list modid)) : Prop :=
@@ -192,22 +199,22 @@ Section Correct.
   Notation load_meta := (Model.load_meta content_of ign_of).
   Notation validate_meta := (Model.validate_meta content_of ign_of).
   Notation restamp := (Model.restamp content_of ign_of).
-  Notation cands := (Model.cands content_of imports probes ign_of).
-  Notation direct_deps := (Model.direct_deps content_of imports probes ign_of).
-  Notation supp_deps := (Model.supp_deps content_of imports ign_of).
+  Notation cands := (Model.cands content_of view_of imports probes ign_of).
+  Notation direct_deps := (Model.direct_deps content_of view_of imports probes ign_of).
+  Notation supp_deps := (Model.supp_deps content_of view_of imports ign_of).
   Notation old_indirect := (Model.old_indirect content_of ign_of).
-  Notation new_indirect := (Model.new_indirect content_of imports probes ign_of).
-  Notation depmap := (Model.depmap content_of imports probes ign_of).
+  Notation new_indirect := (Model.new_indirect content_of view_of imports probes ign_of).
+  Notation depmap := (Model.depmap content_of view_of imports probes ign_of).
   Notation is_fresh := (Model.is_fresh content_of sdo_of ign_of).
   Notation dep_hashes_ok := (Model.dep_hashes_ok content_of ign_of).
   Notation trans_ok := (Model.trans_ok content_of reach thash ign_of).
   Notation scc_fresh := (Model.scc_fresh content_of reach sdo_of thash ign_of).
   Notation cached_pm := (Model.cached_pm content_of ign_of).
   Notation fresh_pm := (Model.fresh_pm ign_of).
-  Notation src_of := (Model.src_of content_of).
-  Notation write_module := (Model.write_module content_of imports probes sdo_of thash ign_of).
-  Notation process_scc := (Model.process_scc content_of imports probes analyze reach sdo_of thash ign_of).
-  Notation run := (Model.run content_of imports probes analyze sccs_of reach sdo_of thash ign_of).
+  Notation src_of := (Model.src_of view_of).
+  Notation write_module := (Model.write_module content_of view_of imports probes sdo_of thash ign_of).
+  Notation process_scc := (Model.process_scc content_of view_of imports probes analyze reach sdo_of thash ign_of).
+  Notation run := (Model.run content_of view_of imports probes analyze sccs_of reach sdo_of thash ign_of).
 
   Definition eo (e : meta) : opts := {| o_snap := m_snap e; o_version := m_version e; o_plugin := m_plugin e |}.
 
@@ -218,16 +225,18 @@ Section Correct.
   Definition EntryOK (K : calls) (m : modid) (e : meta) (x : meta_ex) : Prop :=
     let S0 := m_scc e in let src0 := fst (K (m_gen e) S0) in let env0 := snd (K (m_gen e) S0) in
     let r := analyze S0 src0 (eo e) env0 m in
-    In m S0 /\ src0 m = m_hash e /\ m_hash e = content_of m (m_stamp e) /\ blocker m (m_hash e) = false /\
+    let v := view_of m (m_stamp e) in
+    In m S0 /\ src0 m = v /\ m_hash e = content_of m (m_stamp e) /\ blocker m (m_hash e) = false /\
     m_ihash e = r_iface r /\ x_errors x = (if m_ignore_all e then [] else r_errors r) /\
-    incl (imports m (m_hash e) (eo e)) (m_deps e ++ m_supp e) /\
-    incl (m_deps e ++ m_supp e) (imports m (m_hash e) (eo e) ++ probes m (m_hash e) (eo e)) /\
+    incl (imports m v (eo e)) (m_deps e ++ m_supp e) /\
+    incl (m_deps e ++ m_supp e) (imports m v (eo e) ++ probes m v (eo e)) /\
     incl (r_indirect r) (m_deps e ++ x_deps x) /\
     (forall d h, In (d, h) (combine (m_deps e ++ x_deps x) (m_dep_hashes e ++ x_dep_hashes x)) -> ~ In d S0 -> env0 d = Some h) /\
     length (m_dep_hashes e ++ x_dep_hashes x) = length (m_deps e ++ x_deps x) /\
     (forall d, In d (m_supp e) -> env0 d = None) /\
-    (forall d, In d (probes m (m_hash e) (eo e)) -> In d (m_deps e) \/ env0 d = None) /\
-    (forall dm d, thash dm m = m_thash e -> In d (r_indirect r) -> reach dm m d = true).
+    (forall d, In d (probes m v (eo e)) -> In d (m_deps e) \/ env0 d = None) /\
+    (forall dm d, thash dm m = m_thash e -> In d (r_indirect r) -> reach dm m d = true) /\
+    (forall d, In d (implicits m v (eo e)) -> ~ In d S0 -> In d (m_deps e ++ x_deps x) \/ env0 d = None).
 
   (* provenance: the members of a call are written together, so a co-member's entry is never older, and entries of the
      same run that share a member are entries of the same call *)
@@ -296,9 +305,22 @@ Section Correct.
     split; [auto|]. split; [auto|]. split; auto.
   Qed.
 
+  (* side conditions under which reusing a cached entry is right; mypy checks none of them *)
+  (* F6: no probed name that was not a module when the entry was written is a module now *)
   Definition ProbeFresh (c : store) (o : opts) (fs : FS) : Prop :=
     forall m e x s, load_meta c o fs m = Some (e, x) -> lookup fs m = Some s ->
-      forall d, In d (probes m (content_of m s) o) -> inG fs d = true -> In d (m_deps e).
+      forall d, In d (probes m (view_of m s) o) -> inG fs d = true -> In d (m_deps e).
+  (* F7: the file is seen the same way (text AND kind .py/.pyi) as when the entry was validated last *)
+  Definition KindStable (c : store) (o : opts) (fs : FS) : Prop :=
+    forall m e x s, load_meta c o fs m = Some (e, x) -> lookup fs m = Some s -> view_of m (m_stamp e) = view_of m s.
+  (* F9: an implicit submodule reference naming a module of the build points down the import graph and, for a reused
+     entry, is recorded in it *)
+  Definition ImplicitStable (c : store) (o : opts) (fs : FS) : Prop :=
+    forall m s d, lookup fs m = Some s -> In d (implicits m (view_of m s) o) -> inG fs d = true ->
+      (forall S, In S (sccs_of (depmap c o fs)) -> In m S -> In d S \/ reach (depmap c o fs) m d = true) /\
+      (forall e x, load_meta c o fs m = Some (e, x) -> In d (m_deps e ++ x_deps x)).
+  Definition Reuse (c : store) (o : opts) (fs : FS) : Prop :=
+    ProbeFresh c o fs /\ KindStable c o fs /\ ImplicitStable c o fs.
 
   (* every SCC whose members all have a valid meta is the SCC those entries were written for (mypy does not check this:
      a cycle broken by an edit that changes no interface leaves the other members fresh) *)
@@ -306,35 +328,35 @@ Section Correct.
     forall S, In S (sccs_of (depmap c o fs)) -> (forall m, In m S -> load_meta c o fs m <> None) ->
       forall m e x, In m S -> load_meta c o fs m = Some (e, x) -> forall y, In y (m_scc e) <-> In y S.
 
-  Lemma cands_spec : forall K c o fs m s d, StoreOK K c -> ProbeFresh c o fs -> lookup fs m = Some s -> inG fs d = true ->
-    (In d (cands c o fs m s) <-> In d (imports m (content_of m s) o ++ probes m (content_of m s) o)).
+  Lemma cands_spec : forall K c o fs m s d, StoreOK K c -> Reuse c o fs -> lookup fs m = Some s -> inG fs d = true ->
+    (In d (cands c o fs m s) <-> In d (imports m (view_of m s) o ++ probes m (view_of m s) o)).
   Proof.
-    intros K c o fs m s d HC HP Hs HG. unfold Model.cands. destruct (load_meta c o fs m) as [[e x]|] eqn:L; [|tauto].
+    intros K c o fs m s d HC [HP [HK _]] Hs HG. unfold Model.cands. destruct (load_meta c o fs m) as [[e x]|] eqn:L; [|tauto].
     destruct (load_ok _ _ _ _ _ _ _ HC L) as [s' [dd [Hs' [_ [_ [_ [Ho [Hh [_ [EOK _]]]]]]]]]].
     rewrite Hs in Hs'; inversion Hs'; subst s'. destruct EOK as [_ [_ [_ [_ [_ [_ [Hi [Hr _]]]]]]]].
-    rewrite Hh, Ho in Hi, Hr. split; intros H.
+    simpl in Hi, Hr. rewrite (HK _ _ _ _ L Hs), Ho in Hi, Hr. split; intros H.
     - apply Hr; auto.
     - apply in_app_or in H as [H|H]. apply Hi; auto. apply in_or_app; left. eapply HP; eauto.
   Qed.
 
-  Lemma hard_in_cands : forall K c o fs m s, StoreOK K c -> lookup fs m = Some s ->
-    incl (imports m (content_of m s) o) (Model.hard_cands content_of imports ign_of c o fs m s).
+  Lemma hard_in_cands : forall K c o fs m s, StoreOK K c -> Reuse c o fs -> lookup fs m = Some s ->
+    incl (imports m (view_of m s) o) (Model.hard_cands content_of view_of imports ign_of c o fs m s).
   Proof.
-    intros K c o fs m s HC Hs. unfold Model.hard_cands. destruct (load_meta c o fs m) as [[e x]|] eqn:L.
+    intros K c o fs m s HC [_ [HK _]] Hs. unfold Model.hard_cands. destruct (load_meta c o fs m) as [[e x]|] eqn:L.
     - destruct (load_ok _ _ _ _ _ _ _ HC L) as [s' [dd [Hs' [_ [_ [_ [Ho [Hh [_ [EOK _]]]]]]]]]].
       rewrite Hs in Hs'; inversion Hs'; subst s'. destruct EOK as [_ [_ [_ [_ [_ [_ [Hi _]]]]]]].
-      rewrite Hh, Ho in Hi. exact Hi.
+      simpl in Hi. rewrite (HK _ _ _ _ L Hs), Ho in Hi. exact Hi.
     - apply incl_refl.
   Qed.
 
-  Lemma hard_sub : forall K c o fs m s, StoreOK K c -> lookup fs m = Some s ->
-    incl (Model.hard_cands content_of imports ign_of c o fs m s)
-         (imports m (content_of m s) o ++ probes m (content_of m s) o).
+  Lemma hard_sub : forall K c o fs m s, StoreOK K c -> Reuse c o fs -> lookup fs m = Some s ->
+    incl (Model.hard_cands content_of view_of imports ign_of c o fs m s)
+         (imports m (view_of m s) o ++ probes m (view_of m s) o).
   Proof.
-    intros K c o fs m s HC Hs. unfold Model.hard_cands. destruct (load_meta c o fs m) as [[e x]|] eqn:L.
+    intros K c o fs m s HC [_ [HK _]] Hs. unfold Model.hard_cands. destruct (load_meta c o fs m) as [[e x]|] eqn:L.
     - destruct (load_ok _ _ _ _ _ _ _ HC L) as [s' [dd [Hs' [_ [_ [_ [Ho [Hh [_ [EOK _]]]]]]]]]].
       rewrite Hs in Hs'; inversion Hs'; subst s'. destruct EOK as [_ [_ [_ [_ [_ [_ [_ [Hr _]]]]]]]].
-      rewrite Hh, Ho in Hr. exact Hr.
+      simpl in Hr. rewrite (HK _ _ _ _ L Hs), Ho in Hr. exact Hr.
     - intros d Hd. apply in_or_app; auto.
   Qed.
 
@@ -356,9 +378,9 @@ Section Correct.
     simpl in E. inversion E; subst. unfold Model.direct_deps in Hd. apply found_In in Hd as [_ Hd]. apply inG_In; auto.
   Qed.
 
-  Lemma direct_deps_spec : forall K c o fs m s d, StoreOK K c -> ProbeFresh c o fs -> lookup fs m = Some s ->
+  Lemma direct_deps_spec : forall K c o fs m s d, StoreOK K c -> Reuse c o fs -> lookup fs m = Some s ->
     (In d (direct_deps c o fs m s) <->
-     In d (imports m (content_of m s) o ++ probes m (content_of m s) o) /\ inG fs d = true).
+     In d (imports m (view_of m s) o ++ probes m (view_of m s) o) /\ inG fs d = true).
   Proof.
     intros. unfold Model.direct_deps. rewrite found_In. split; intros [A B]; split; auto.
     eapply cands_spec; eauto. eapply cands_spec; eauto.
@@ -372,12 +394,13 @@ Section Correct.
     forall S m, In S L -> In m S ->
       exists p, lookup env m = Some p /\ pm_is fs o m p (analyze S (src_of fs) o (ienv env) m).
   Definition DomG (fs : FS) (env : penv) : Prop := forall m, In m (map fst env) -> inG fs m = true.
+  Definition rd3 (m : modid) (v : content) (o : opts) : list modid :=
+    (imports m v o ++ probes m v o) ++ implicits m v o.
   Definition Closed (fs : FS) (o : opts) (env : penv) : Prop :=
-    forall m s d, In m (map fst env) -> lookup fs m = Some s ->
-                  In d (imports m (content_of m s) o ++ probes m (content_of m s) o) ->
+    forall m s d, In m (map fst env) -> lookup fs m = Some s -> In d (rd3 m (view_of m s) o) ->
                   inG fs d = true -> In d (map fst env).
 
-  Lemma src_of_eq : forall (fs : FS) m s, lookup fs m = Some s -> src_of fs m = content_of m s.
+  Lemma src_of_eq : forall (fs : FS) m s, lookup fs m = Some s -> src_of fs m = view_of m s.
   Proof. intros. unfold Model.src_of. rewrite H. auto. Qed.
 
   Lemma ienv_app_l : forall (env ext : penv) d, In d (map fst env) -> ienv (env ++ ext) d = ienv env d.
@@ -391,17 +414,20 @@ Section Correct.
   (* what SCC S reads outside itself is already in the environment and stays as it is when the environment grows *)
   Lemma reads_stable : forall fs o (env ext : penv) S,
     DomG fs env -> DomG fs (env ++ ext) ->
-    (forall m1 s1 d, In m1 S -> lookup fs m1 = Some s1 ->
-       In d (imports m1 (content_of m1 s1) o ++ probes m1 (content_of m1 s1) o) -> inG fs d = true -> ~ In d S ->
+    (forall m1 s1 d, In m1 S -> lookup fs m1 = Some s1 -> In d (rd3 m1 (view_of m1 s1) o) -> inG fs d = true -> ~ In d S ->
        In d (map fst env)) ->
     (forall m1, In m1 S -> inG fs m1 = true) ->
     forall m1 d, In m1 S -> ext_reads S (src_of fs) o (ienv env) m1 d -> ienv env d = ienv (env ++ ext) d.
   Proof.
-    intros fs o env ext S D1 D2 Hdir HS m1 d Hm1 [HnS [Hd|Hd]].
-    - destruct (proj1 (inG_lookup fs m1) (HS _ Hm1)) as [s1 Hs1]. rewrite (src_of_eq _ _ _ Hs1) in Hd.
+    intros fs o env ext S D1 D2 Hdir HS m1 d Hm1 [HnS Hrd].
+    assert (R3 : In d (rd3 m1 (src_of fs m1) o) -> ienv env d = ienv (env ++ ext) d).
+    { intros Hd. destruct (proj1 (inG_lookup fs m1) (HS _ Hm1)) as [s1 Hs1]. rewrite (src_of_eq _ _ _ Hs1) in Hd.
       destruct (inG fs d) eqn:G.
       + symmetry. apply ienv_app_l. eapply Hdir; eauto.
-      + rewrite (ienv_none fs env d D1 G). rewrite (ienv_none fs (env ++ ext) d D2 G). auto.
+      + rewrite (ienv_none fs env d D1 G). rewrite (ienv_none fs (env ++ ext) d D2 G). auto. }
+    destruct Hrd as [Hd|[Hd|Hd]].
+    - apply R3. unfold rd3. apply in_or_app; auto.
+    - apply R3. unfold rd3. apply in_or_app; auto.
     - destruct (an_indirect_dom _ _ _ _ _ _ Hm1 Hd) as [X|X]; [tauto|].
       symmetry. apply ienv_app_l. unfold ienv in X. destruct (lookup env d) eqn:Q; simpl in X; try congruence.
       eapply lookup_Some_dom; eauto.
@@ -409,12 +435,11 @@ Section Correct.
 
   (* ---- facts about the SCC being processed *)
   Lemma step_facts : forall K c o fs L1 S L2 (env : penv),
-    StoreOK K c -> ProbeFresh c o fs ->
+    StoreOK K c -> Reuse c o fs ->
     FSOK fs -> sccs_of (depmap c o fs) = L1 ++ S :: L2 -> map fst env = concat L1 ->
     (forall m, In m S -> inG fs m = true) /\ (forall m, In m S -> ~ In m (map fst env)) /\ NoDup S /\
     (forall m s d, In m S -> lookup fs m = Some s -> In d (direct_deps c o fs m s) -> In d (map fst env ++ S)) /\
-    (forall m1 s1 d, In m1 S -> lookup fs m1 = Some s1 ->
-       In d (imports m1 (content_of m1 s1) o ++ probes m1 (content_of m1 s1) o) -> inG fs d = true -> ~ In d S ->
+    (forall m1 s1 d, In m1 S -> lookup fs m1 = Some s1 -> In d (rd3 m1 (view_of m1 s1) o) -> inG fs d = true -> ~ In d S ->
        In d (map fst env)).
   Proof.
     intros K c o fs L1 S L2 env HC HP HFS HL Hdom.
@@ -427,7 +452,13 @@ Section Correct.
     - intros m Hm Hin. rewrite Hdom in Hin. eapply NoDup_app_disj; eauto. apply in_or_app; auto.
     - apply NoDup_app_r' in ND. apply NoDup_app_l' in ND. auto.
     - intros m1 s1 d Hm1 Hs1 Hd HG HnS.
-      assert (In d (map fst env ++ S)). { eapply T; eauto. eapply direct_deps_spec; eauto. }
+      assert (In d (map fst env ++ S)).
+      { unfold rd3 in Hd. apply in_app_or in Hd as [Hd|Hd].
+        - eapply T; eauto. eapply direct_deps_spec; eauto.
+        - destruct HP as [_ [_ HI]]. destruct (HI m1 s1 d Hs1 Hd HG) as [A _].
+          assert (InL : In S (sccs_of (depmap c o fs))) by (rewrite HL; apply in_or_app; right; left; auto).
+          destruct (A S InL Hm1) as [X|X]. apply in_or_app; auto.
+          rewrite Hdom. eapply reach_before; eauto. }
       apply in_app_or in H as [H|H]; tauto.
   Qed.
 
@@ -481,7 +512,7 @@ Section Correct.
 
   (* ---- a stale SCC: analysed as a unit against the lower interfaces *)
   Lemma stale_good : forall K c o fs L1 S L2 (env : penv) m,
-    StoreOK K c -> ProbeFresh c o fs -> FSOK fs -> sccs_of (depmap c o fs) = L1 ++ S :: L2 -> map fst env = concat L1 ->
+    StoreOK K c -> Reuse c o fs -> FSOK fs -> sccs_of (depmap c o fs) = L1 ++ S :: L2 -> map fst env = concat L1 ->
     DomG fs env -> In m S ->
     let R := analyze S (src_of fs) o (ienv env) in
     pm_is fs o m (fresh_pm fs o R m)
@@ -499,7 +530,7 @@ Section Correct.
   (* ---- a fresh SCC: by provenance all its entries stem from ONE analysis call on this member set, and that call's
           inputs are the current sources and the current lower interfaces *)
   Lemma fresh_good : forall K c o fs L1 S L2 (env : penv) m,
-    StoreOK K c -> ProbeFresh c o fs -> SccFresh c o fs -> FSOK fs ->
+    StoreOK K c -> Reuse c o fs -> SccFresh c o fs -> FSOK fs ->
     sccs_of (depmap c o fs) = L1 ++ S :: L2 -> map fst env = concat L1 ->
     GoodS fs o L1 env -> DomG fs env -> scc_fresh c o fs (depmap c o fs) env S = true -> In m S ->
     pm_is fs o m (cached_pm c o fs m)
@@ -537,88 +568,68 @@ Section Correct.
         destruct (is_fresh_spec _ _ _ _ Fy) as [ey [xy [Ly _]]].
         destruct (load_ok _ _ _ _ _ _ _ HC Ly) as [sy [dy [Hsy [_ [_ [_ [_ [Hhy [_ [EOKy _]]]]]]]]]].
         destruct (SAME _ _ _ Hy Ly) as [Gy Sy]. unfold EntryOK in EOKy. simpl in EOKy. rewrite Gy, Sy in EOKy.
-        destruct EOKy as [_ [B2 _]]. fold S0 in B2. fold src0 in B2. rewrite (src_of_eq _ _ _ Hsy). congruence.
+        destruct EOKy as [_ [B2 _]]. fold S0 in B2. fold src0 in B2. rewrite (src_of_eq _ _ _ Hsy). rewrite B2.
+        destruct HP as [_ [HK _]]. eapply HK; eauto.
       - (* lower interfaces *)
-        intros m1 d0 Hm1 [HnS [Hrd|Hrd]].
-        + apply EQS in Hm1.
-          destruct (fresh_parts _ _ _ _ _ _ _ HF Hm1) as [G1 [G2 G3]].
-          destruct (is_fresh_spec _ _ _ _ G1) as [e1 [x1 [L1' [Hall Hsupp]]]].
-          destruct (load_ok _ _ _ _ _ _ _ HC L1') as [s1 [d1 [Hs1 [_ [_ [_ [Ho1 [Hh1 [_ [EOK1 _]]]]]]]]]].
-          destruct (SAME _ _ _ Hm1 L1') as [Gy Sy]. unfold EntryOK in EOK1. simpl in EOK1. rewrite Gy, Sy, Ho1 in EOK1.
-          fold S0 in EOK1. fold src0 in EOK1. fold env0 in EOK1.
-          destruct EOK1 as [_ [B2 [_ [_ [_ [_ [B7 [_ [B9 [B10 [B11 [B12 [B13 B14]]]]]]]]]]]]].
-          assert (AG : forall d1', In d1' (m_deps e1 ++ x_deps x1) -> ~ In d1' S0 ->
-                        In d1' (m_deps e1) \/ In d1' (r_indirect (analyze S0 src0 o env0 m1)) ->
-                        env0 d1' = ienv env' d1').
-          { intros dd Hdd HnS' HR. destruct (combine_In_ex _ _ dd B11 Hdd) as [h Hh0]. rewrite (B10 _ _ Hh0 HnS').
-            unfold Model.dep_hashes_ok in G2. rewrite L1' in G2. rewrite forallb_forall in G2. specialize (G2 _ Hh0).
-            simpl in G2. rewrite (Hall _ Hdd) in G2. simpl in G2. apply Nat.eqb_eq in G2. unfold Model.cur_hash in G2.
-            assert (InE : In dd (map fst env)).
-            { assert (NS : ~ In dd S) by (intro; apply HnS'; apply EQS; auto).
-              assert (DIR : In dd (m_deps e1) -> In dd (map fst env)).
-              { intros A. assert (In dd (map fst env ++ S)).
-                { eapply Stopo; eauto. unfold Model.direct_deps, Model.cands. rewrite L1'. apply found_In. split.
-                  apply in_or_app; auto. apply Hall. apply in_or_app; auto. }
-                apply in_app_or in H as [H|H]; tauto. }
-              destruct HR as [HRd|HRi]; auto.
-              apply in_app_or in Hdd as [Hdd|Hdd]; auto.
-              assert (In dd (concat L1 ++ S)).
-              { unfold Model.trans_ok in G3. rewrite L1' in G3. apply orb_true_iff in G3 as [FT|G3].
-                - apply Nat.eqb_eq in FT. eapply reach_before; eauto.
-                - rewrite forallb_forall in G3. specialize (G3 _ Hdd).
-                  apply orb_true_iff in G3 as [G3|G3]. apply mem_In in G3. apply in_or_app; auto.
-                  eapply reach_before; eauto. }
-              rewrite <- Hdom in H. apply in_app_or in H as [H|H]; tauto. }
-            destruct (lookup_dom _ _ _ InE) as [q Hq]. rewrite Hq in G2.
-            unfold env'. rewrite (ienv_app_l env _ dd InE). unfold ienv. rewrite Hq. simpl.
-            rewrite <- (env_hash fs o L1 env dd q HG Hdom Hq). congruence. }
-          rewrite B2, Hh1 in Hrd. rewrite Hh1 in B7, B13.
-          apply in_app_or in Hrd as [Hi|Hp].
-          * apply B7 in Hi. apply in_app_or in Hi as [Hi|Hi].
-            -- apply AG; auto. apply in_or_app; auto.
-            -- rewrite (B12 _ Hi). symmetry. apply (ienv_none fs env' d0 D2).
-               destruct (inG fs d0) eqn:G; auto. assert (In d0 (found fs (m_supp e1))) by (apply found_In; auto).
-               rewrite Hsupp in H. inversion H.
-          * destruct (inG fs d0) eqn:G.
-            -- assert (In d0 (m_deps e1)) by (eapply HP; eauto). apply AG; auto. apply in_or_app; auto.
-            -- destruct (B13 _ Hp) as [X|X]. apply AG; auto. apply in_or_app; auto.
-               rewrite X. symmetry. apply (ienv_none fs env' d0 D2); auto.
-        + apply EQS in Hm1.
-          destruct (fresh_parts _ _ _ _ _ _ _ HF Hm1) as [G1 [G2 G3]].
-          destruct (is_fresh_spec _ _ _ _ G1) as [e1 [x1 [L1' [Hall Hsupp]]]].
-          destruct (load_ok _ _ _ _ _ _ _ HC L1') as [s1 [d1 [Hs1 [_ [_ [_ [Ho1 [Hh1 [_ [EOK1 _]]]]]]]]]].
-          destruct (SAME _ _ _ Hm1 L1') as [Gy Sy]. unfold EntryOK in EOK1. simpl in EOK1. rewrite Gy, Sy, Ho1 in EOK1.
-          fold S0 in EOK1. fold src0 in EOK1. fold env0 in EOK1.
-          destruct EOK1 as [_ [B2 [_ [_ [_ [_ [B7 [_ [B9 [B10 [B11 [B12 [B13 B14]]]]]]]]]]]]].
-          pose proof (B9 _ Hrd) as Hdd.
-          destruct (combine_In_ex _ _ d0 B11 Hdd) as [h Hh0]. rewrite (B10 _ _ Hh0 HnS).
+        intros m1 d0 Hm1 [HnS Hrd]. apply EQS in Hm1.
+        destruct (fresh_parts _ _ _ _ _ _ _ HF Hm1) as [G1 [G2 G3]].
+        destruct (is_fresh_spec _ _ _ _ G1) as [e1 [x1 [L1' [Hall Hsupp]]]].
+        destruct (load_ok _ _ _ _ _ _ _ HC L1') as [s1 [d1 [Hs1 [_ [_ [_ [Ho1 [Hh1 [_ [EOK1 _]]]]]]]]]].
+        destruct (SAME _ _ _ Hm1 L1') as [Gy Sy]. unfold EntryOK in EOK1. simpl in EOK1. rewrite Gy, Sy, Ho1 in EOK1.
+        fold S0 in EOK1. fold src0 in EOK1. fold env0 in EOK1.
+        assert (HV1 : view_of m1 (m_stamp e1) = view_of m1 s1). { destruct HP as [_ [HK _]]. eapply HK; eauto. }
+        rewrite HV1 in EOK1.
+        destruct EOK1 as [_ [B2 [_ [_ [_ [_ [B7 [_ [B9 [B10 [B11 [B12 [B13 [B14 B15]]]]]]]]]]]]]].
+        assert (NS : ~ In d0 S) by (intro; apply HnS; apply EQS; auto).
+        assert (AGE : In d0 (m_deps e1 ++ x_deps x1) -> In d0 (map fst env) -> env0 d0 = ienv env' d0).
+        { intros Hdd InE. destruct (combine_In_ex _ _ d0 B11 Hdd) as [h Hh0]. rewrite (B10 _ _ Hh0 HnS).
           unfold Model.dep_hashes_ok in G2. rewrite L1' in G2. rewrite forallb_forall in G2. specialize (G2 _ Hh0).
           simpl in G2. rewrite (Hall _ Hdd) in G2. simpl in G2. apply Nat.eqb_eq in G2. unfold Model.cur_hash in G2.
-          assert (InE : In d0 (map fst env)).
-          { assert (NS : ~ In d0 S) by (intro; apply HnS; apply EQS; auto).
-            apply in_app_or in Hdd as [Hdd|Hdd].
-            - assert (In d0 (map fst env ++ S)).
-              { eapply Stopo; eauto. unfold Model.direct_deps, Model.cands. rewrite L1'. apply found_In. split.
-                apply in_or_app; auto. apply Hall. apply in_or_app; auto. }
-              apply in_app_or in H as [H|H]; tauto.
-            - assert (In d0 (concat L1 ++ S)).
-              { unfold Model.trans_ok in G3. rewrite L1' in G3. apply orb_true_iff in G3 as [FT|G3].
-                - apply Nat.eqb_eq in FT. eapply reach_before; eauto.
-                - rewrite forallb_forall in G3. specialize (G3 _ Hdd).
-                  apply orb_true_iff in G3 as [G3|G3]. apply mem_In in G3. apply in_or_app; auto.
-                  eapply reach_before; eauto. }
-              rewrite <- Hdom in H. apply in_app_or in H as [H|H]; tauto. }
           destruct (lookup_dom _ _ _ InE) as [q Hq]. rewrite Hq in G2.
           unfold env'. rewrite (ienv_app_l env _ d0 InE). unfold ienv. rewrite Hq. simpl.
           rewrite <- (env_hash fs o L1 env d0 q HG Hdom Hq). congruence. }
+        assert (DIR : In d0 (m_deps e1) -> In d0 (map fst env)).
+        { intros A. assert (In d0 (map fst env ++ S)).
+          { eapply Stopo; eauto. unfold Model.direct_deps, Model.cands. rewrite L1'. apply found_In. split.
+            apply in_or_app; auto. apply Hall. apply in_or_app; auto. }
+          apply in_app_or in H as [H|H]; tauto. }
+        assert (IND : In d0 (x_deps x1) -> In d0 (r_indirect (analyze S0 src0 o env0 m1)) -> In d0 (map fst env)).
+        { intros Hdd Hri. assert (In d0 (concat L1 ++ S)).
+          { unfold Model.trans_ok in G3. rewrite L1' in G3. apply orb_true_iff in G3 as [FT|G3].
+            - apply Nat.eqb_eq in FT. eapply reach_before; eauto.
+            - rewrite forallb_forall in G3. specialize (G3 _ Hdd).
+              apply orb_true_iff in G3 as [G3|G3]. apply mem_In in G3. apply in_or_app; auto.
+              eapply reach_before; eauto. }
+          rewrite <- Hdom in H. apply in_app_or in H as [H|H]; tauto. }
+        assert (NONE : inG fs d0 = false -> ienv env' d0 = None) by (apply (ienv_none fs env' d0 D2)).
+        rewrite B2 in Hrd. destruct Hrd as [Hrd|[Himp|Hri]].
+        + apply in_app_or in Hrd as [Hi|Hp].
+          * apply B7 in Hi. apply in_app_or in Hi as [Hi|Hi].
+            -- apply AGE; auto. apply in_or_app; auto.
+            -- rewrite (B12 _ Hi). symmetry. apply NONE.
+               destruct (inG fs d0) eqn:G; auto. assert (In d0 (found fs (m_supp e1))) by (apply found_In; auto).
+               rewrite Hsupp in H. inversion H.
+          * destruct (inG fs d0) eqn:G.
+            -- assert (In d0 (m_deps e1)). { destruct HP as [HPr _]. eapply HPr; eauto. }
+               apply AGE; auto. apply in_or_app; auto.
+            -- destruct (B13 _ Hp) as [X|X]. apply AGE; auto. apply in_or_app; auto.
+               rewrite X. symmetry. apply NONE; auto.
+        + destruct (inG fs d0) eqn:G.
+          * destruct HP as [_ [_ HI]]. destruct (HI m1 s1 d0 Hs1 Himp G) as [_ REC].
+            apply AGE. eapply REC; eauto. eapply Sdir; eauto. unfold rd3. apply in_or_app; auto.
+          * destruct (B15 _ Himp HnS) as [X|X].
+            -- exfalso. rewrite (Hall _ X) in G. discriminate.
+            -- rewrite X. symmetry. apply NONE; auto.
+        + pose proof (B9 _ Hri) as Hdd. apply AGE; auto.
+          apply in_app_or in Hdd as [Hdd|Hdd]; auto. }
     exists s. split; auto. rewrite (cached_pm_eq _ _ _ _ _ _ _ _ L Hd Hs). simpl. fold env'. rewrite <- CALL.
     split; [congruence|]. split; [|congruence].
     destruct (ign_of m s o) eqn:IG; auto. rewrite A6.
     destruct (m_ignore_all e) eqn:MI; auto. specialize (Hig eq_refl). discriminate.
   Qed.
   (* ---- the entry written for a re-analysed module *)
-  Notation new_meta := (Model.new_meta content_of imports probes sdo_of thash ign_of).
-  Notation new_ex := (Model.new_ex content_of imports probes ign_of).
+  Notation new_meta := (Model.new_meta content_of view_of imports probes sdo_of thash ign_of).
+  Notation new_ex := (Model.new_ex content_of view_of imports probes ign_of).
 
   Definition env0_of (c : store) (o : opts) (fs : FS) (env env' : penv) : modid -> option ihash :=
     fun d => match lookup env d with
@@ -637,7 +648,7 @@ Section Correct.
   Qed.
 
   Lemma new_entry_ok : forall K c o fs L1 S L2 (env : penv) m s now dmt,
-    StoreOK K c -> ProbeFresh c o fs -> FSOK fs -> sccs_of (depmap c o fs) = L1 ++ S :: L2 -> map fst env = concat L1 ->
+    StoreOK K c -> Reuse c o fs -> FSOK fs -> sccs_of (depmap c o fs) = L1 ++ S :: L2 -> map fst env = concat L1 ->
     GoodS fs o L1 env -> DomG fs env -> In m S -> lookup fs m = Some s -> blocker m (content_of m s) = false ->
     let R := analyze S (src_of fs) o (ienv env) in
     let env' := env ++ map (fun x => (x, fresh_pm fs o R x)) S in
@@ -653,12 +664,19 @@ Section Correct.
     set (env0 := env0_of c o fs env env').
     assert (CALL : forall y, In y S -> analyze S (src_of fs) o env0 y = R y).
     { intros y Hy. unfold R. symmetry. apply an_ext; auto; try tauto.
-      intros m1 d Hm1 [HnS [Hd|Hd]]; unfold env0, env0_of, ienv.
-      - destruct (proj1 (inG_lookup fs m1) (SinG _ Hm1)) as [s1 Hs1]. rewrite (src_of_eq _ _ _ Hs1) in Hd.
+      intros m1 d Hm1 [HnS Hrd]; unfold env0, env0_of, ienv.
+      assert (R3 : In d (rd3 m1 (src_of fs m1) o) ->
+                   option_map p_iface (lookup env d) =
+                   match lookup env d with Some q => Some (p_iface q)
+                   | None => if inG fs d then Some (cur_hash c o env' d) else None end).
+      { intros Hd. destruct (proj1 (inG_lookup fs m1) (SinG _ Hm1)) as [s1 Hs1]. rewrite (src_of_eq _ _ _ Hs1) in Hd.
         destruct (inG fs d) eqn:G.
         + assert (In d (map fst env)) by (eapply Sdir; eauto). apply lookup_dom in H as [q Hq]. rewrite Hq. auto.
         + assert (lookup env d = None). { apply lookup_None. intro X. apply D1 in X. congruence. }
-          rewrite H. auto.
+          rewrite H. auto. }
+      destruct Hrd as [Hd|[Hd|Hd]].
+      - apply R3. unfold rd3. apply in_or_app; auto.
+      - apply R3. unfold rd3. apply in_or_app; auto.
       - destruct (an_indirect_dom _ _ _ _ _ _ Hm1 Hd) as [X|X]; [tauto|].
         unfold ienv in X. destruct (lookup env d) eqn:Q; simpl in X; try congruence. auto. }
     rewrite (CALL m Hm).
@@ -704,8 +722,26 @@ Section Correct.
     split.
     { intros d Hd. destruct (inG fs d) eqn:G; [|right; apply NONE; auto]. left.
       eapply direct_deps_spec; eauto. split; auto. apply in_or_app; auto. }
+    split.
     { intros dm' d Heq Hd. simpl in Heq. rewrite (thash_reach dm' (depmap c o fs) m Heq).
       eapply indirect_reach; eauto. }
+    { intros d Hd HnS. destruct (inG fs d) eqn:G; [|right; apply NONE; auto]. left.
+      assert (InE : In d (map fst env)). { eapply Sdir; eauto. unfold rd3. apply in_or_app; auto. }
+      assert (VIS : ienv env d <> None).
+      { unfold ienv. destruct (lookup_dom _ _ _ InE) as [q Hq]. rewrite Hq. simpl. congruence. }
+      rewrite <- (src_of_eq _ _ _ Hs) in Hd.
+      destruct (an_implicit_reported S (src_of fs) o (ienv env) m d Hm Hd HnS VIS) as [X|X].
+      - apply in_or_app; left. eapply direct_deps_spec; eauto. rewrite (src_of_eq _ _ _ Hs) in X. auto.
+      - fold R in X.
+        assert (Y : In d (direct_deps c o fs m s ++ new_indirect c o fs m s (R m))).
+        { pose proof (INDIR d X) as DG.
+          destruct (mem d (cands c o fs m s)) eqn:M1.
+          - apply in_or_app; left. apply found_In. split; auto. apply mem_In; auto.
+          - apply in_or_app; right. unfold Model.new_indirect. apply in_or_app.
+            destruct (mem d (old_indirect c o fs m)) eqn:M2. left; apply mem_In; auto.
+            right. apply filter_In. split; auto. rewrite M1, M2. simpl.
+            destruct (Nat.eqb d m) eqn:E; auto. apply Nat.eqb_eq in E; subst d. exfalso. eapply an_noself; eauto. }
+        exact Y. }
   Qed.
   Lemma entry_K_irrel : forall K1 K2 m e x, K1 (m_gen e) (m_scc e) = K2 (m_gen e) (m_scc e) ->
     EntryOK K1 m e x -> EntryOK K2 m e x.
@@ -782,8 +818,7 @@ Section Correct.
 
   Lemma closed_step : forall fs o (env ext : penv) S,
     Closed fs o env -> map fst ext = S ->
-    (forall m1 s1 d, In m1 S -> lookup fs m1 = Some s1 ->
-       In d (imports m1 (content_of m1 s1) o ++ probes m1 (content_of m1 s1) o) -> inG fs d = true -> ~ In d S ->
+    (forall m1 s1 d, In m1 S -> lookup fs m1 = Some s1 -> In d (rd3 m1 (view_of m1 s1) o) -> inG fs d = true -> ~ In d S ->
        In d (map fst env)) ->
     Closed fs o (env ++ ext).
   Proof.
@@ -807,7 +842,7 @@ Section Correct.
   Qed.
 
   Lemma process_scc_inv : forall K c o fs now L1 S L2 st,
-    StoreOK K c -> ProbeFresh c o fs -> SccFresh c o fs -> FSOK fs -> NB fs ->
+    StoreOK K c -> Reuse c o fs -> SccFresh c o fs -> FSOK fs -> NB fs ->
     sccs_of (depmap c o fs) = L1 ++ S :: L2 ->
     Inv c fs o now L1 st -> Inv c fs o now (L1 ++ [S]) (process_scc c o fs now (depmap c o fs) st S).
   Proof.
@@ -885,7 +920,7 @@ Section Correct.
   Qed.
 
   Lemma process_all_inv : forall K c o fs now L2 L1 st,
-    StoreOK K c -> ProbeFresh c o fs -> SccFresh c o fs -> FSOK fs -> NB fs ->
+    StoreOK K c -> Reuse c o fs -> SccFresh c o fs -> FSOK fs -> NB fs ->
     sccs_of (depmap c o fs) = L1 ++ L2 -> Inv c fs o now L1 st ->
     Inv c fs o now (L1 ++ L2) (fold_left (process_scc c o fs now (depmap c o fs)) L2 st).
   Proof.
@@ -895,9 +930,9 @@ Section Correct.
       apply IH; auto. eapply process_scc_inv; eauto. rewrite <- app_assoc in HL. exact HL.
   Qed.
   (* ---- the mtime-update write of validate_meta keeps the invariant *)
-  Lemma restamp_ok : forall K c o fs, StoreOK K c -> StoreOK K (restamp c o fs).
+  Lemma restamp_ok : forall K c o fs, StoreOK K c -> KindStable c o fs -> StoreOK K (restamp c o fs).
   Proof.
-    intros K c o fs HC. pose proof HC as [C1 [C2 [G2 G3]]].
+    intros K c o fs HC HKS. pose proof HC as [C1 [C2 [G2 G3]]].
     assert (RS : forall m e', s_meta (restamp c o fs) m = Some e' ->
               exists e, s_meta c m = Some e /\ m_gen e' = m_gen e /\ m_scc e' = m_scc e /\ m_ihash e' = m_ihash e /\
                         (forall x, s_ex c m = Some x -> EntryOK K m e' x)).
@@ -908,7 +943,8 @@ Section Correct.
       destruct (load_ok _ _ _ _ _ _ _ HC L) as [s' [d [Hs' [Hme [Hx [_ [Ho [Hh [_ [EOK _]]]]]]]]]].
       rewrite Hs in Hs'; inversion Hs'; subst s'. injection H1 as <-. exists e. simpl.
       split; [auto|]. split; [auto|]. split; [auto|]. split; [auto|]. intros x Hx'. rewrite Hx in Hx'; inversion Hx'; subst x0.
-      unfold EntryOK in *. simpl. subst o. unfold eo in *. simpl in *.
+      pose proof (HKS _ _ _ _ L Hs) as HV.
+      unfold EntryOK in *. simpl. rewrite HV in EOK. subst o. unfold eo in *. simpl in *.
       destruct EOK as [A1 [A2 [A3 R]]]. split; [auto|]. split; [auto|]. split; [exact Hh|exact R]. }
     split; [|split; [|split]].
     - intros m e' x H1 H2. simpl in H2. destruct (RS _ _ H1) as [e [_ [_ [_ [_ X]]]]]. auto.
@@ -928,14 +964,14 @@ Section Correct.
     injection H1 as <-. simpl. apply load_spec in L as [s' [_ [F _]]]. apply find_spec in F as [F _]. eauto.
   Qed.
 
-  Lemma run_inv : forall K c fs o now, StoreOK K c -> GenBound c now -> ProbeFresh c o fs -> SccFresh c o fs ->
+  Lemma run_inv : forall K c fs o now, StoreOK K c -> GenBound c now -> Reuse c o fs -> SccFresh c o fs ->
     FSOK fs -> NB fs -> Inv c fs o now (sccs_of (depmap c o fs)) (run c fs o now).
   Proof.
     intros. unfold Model.run.
     apply (process_all_inv K c o fs now (sccs_of (depmap c o fs)) [] ([], restamp c o fs)); auto.
     unfold Inv; simpl. split; [reflexivity|]. split; [intros S m HS; inversion HS|].
     split; [intros m Hm; inversion Hm|]. split; [intros m s d Hm; inversion Hm|].
-    split; [exists K; apply restamp_ok; auto|]. split; auto.
+    split; [exists K; apply restamp_ok; auto; apply H1|]. split; auto.
     intros m0 e0 H5. left. eapply restamp_gen; eauto.
   Qed.
 
@@ -953,8 +989,8 @@ Section Correct.
       p_iface p1 = p_iface p2 /\ p_errors p1 = p_errors p2.
 
   Lemma runs_agree : forall K1 c1 K2 c2 fs o n1 n2,
-    StoreOK K1 c1 -> GenBound c1 n1 -> ProbeFresh c1 o fs -> SccFresh c1 o fs ->
-    StoreOK K2 c2 -> GenBound c2 n2 -> ProbeFresh c2 o fs -> SccFresh c2 o fs ->
+    StoreOK K1 c1 -> GenBound c1 n1 -> Reuse c1 o fs -> SccFresh c1 o fs ->
+    StoreOK K2 c2 -> GenBound c2 n2 -> Reuse c2 o fs -> SccFresh c2 o fs ->
     FSOK fs -> NB fs ->
     let env1 := fst (run c1 fs o n1) in let env2 := fst (run c2 fs o n2) in
     (forall m, inG fs m = true -> (exists p, lookup env1 m = Some p) /\ (exists p, lookup env2 m = Some p)) /\
@@ -1001,14 +1037,19 @@ Section Correct.
             { apply inG_In. rewrite <- (depmap_dom c1 o fs). apply Hcov1. rewrite HL, concat_app. apply in_or_app; auto. }
             destruct (DOM x G) as [[a Ha] [b Hb]]. unfold ienv. rewrite Ha, Hb. simpl.
             destruct (HP x Hx a b Ha Hb) as [X _]. congruence. }
-          intros m1 x Hm1 [HnS [Hx|Hx]].
-          - assert (G1 : inG fs m1 = true).
-            { apply inG_In. rewrite <- (depmap_dom c1 o fs). apply Hcov1. rewrite HL, concat_app. simpl.
-              apply in_or_app; right. apply in_or_app; auto. }
-            destruct (proj1 (inG_lookup fs m1) G1) as [sm Hsm]. rewrite (src_of_eq _ _ _ Hsm) in Hx.
-            destruct (inG fs x) eqn:G.
+          intros m1 x Hm1 [HnS Hrd].
+          assert (G1 : inG fs m1 = true).
+          { apply inG_In. rewrite <- (depmap_dom c1 o fs). apply Hcov1. rewrite HL, concat_app. simpl.
+            apply in_or_app; right. apply in_or_app; auto. }
+          destruct (proj1 (inG_lookup fs m1) G1) as [sm Hsm]. rewrite (src_of_eq _ _ _ Hsm) in Hrd.
+          destruct Hrd as [Hx|[Hx|Hx]].
+          - destruct (inG fs x) eqn:G.
             + apply LOW; auto. apply (Htopo1 P S Q m1 (direct_deps c1 o fs m1 sm) x HL Hm1).
               apply lookup_depmap; auto. eapply direct_deps_spec; eauto.
+            + rewrite (ienv_none fs env1 x D1 G), (ienv_none fs env2 x D2 G). auto.
+          - destruct (inG fs x) eqn:G.
+            + apply LOW; auto. destruct HP1 as [_ [_ HI]]. destruct (HI m1 sm x Hsm Hx G) as [A _].
+              destruct (A S InL Hm1) as [X|X]. apply in_or_app; auto. eapply reach_before; eauto.
             + rewrite (ienv_none fs env1 x D1 G), (ienv_none fs env2 x D2 G). auto.
           - apply LOW; auto. eapply reach_before; eauto; try (eapply indirect_reach; eauto). }
         rewrite I1, I2, E1, E2, CALL. auto. }
@@ -1035,9 +1076,9 @@ Section Correct.
 
   (* ---- blocking errors *)
   Notation blocked := (Model.blocked content_of ign_of blocker).
-  Notation warm := (Model.warm content_of imports probes analyze sccs_of reach sdo_of thash ign_of blocker).
-  Notation cold := (Model.cold content_of imports probes analyze sccs_of reach sdo_of thash ign_of blocker).
-  Notation runs := (Model.runs content_of imports probes analyze sccs_of reach sdo_of thash ign_of blocker).
+  Notation warm := (Model.warm content_of view_of imports probes analyze sccs_of reach sdo_of thash ign_of blocker).
+  Notation cold := (Model.cold content_of view_of imports probes analyze sccs_of reach sdo_of thash ign_of blocker).
+  Notation runs := (Model.runs content_of view_of imports probes analyze sccs_of reach sdo_of thash ign_of blocker).
 
   Lemma In_lookup : forall (fs : FS) m s, FSOK fs -> In (m, s) fs -> lookup fs m = Some s.
   Proof.
@@ -1074,31 +1115,37 @@ Section Correct.
     - apply (proj1 (blocked_spec K' c' o fs H0 H1)) in B2. apply (proj2 (blocked_spec K c o fs H H1)) in B2. congruence.
   Qed.
 
-  Definition SideOK (c : store) (o : opts) (fs : FS) : Prop := ProbeFresh c o fs /\ SccFresh c o fs.
+  Definition SideOK (c : store) (o : opts) (fs : FS) : Prop := Reuse c o fs /\ SccFresh c o fs.
 
-  Lemma SideOK_empty : forall o fs, SideOK empty_store o fs.
+  (* the program itself has no dangling implicit submodule reference (otherwise even two COLD runs may differ: which
+     of them resolves depends on scheduling) *)
+  Definition ProgOK (o : opts) (fs : FS) : Prop := ImplicitStable empty_store o fs.
+
+  Lemma SideOK_empty : forall o fs, ProgOK o fs -> SideOK empty_store o fs.
   Proof.
-    intros o fs. assert (N : forall m, load_meta empty_store o fs m = None).
+    intros o fs HI. assert (N : forall m, load_meta empty_store o fs m = None).
     { intros m. unfold Model.load_meta, Model.find_cache_meta. simpl. destruct (lookup fs m); auto. }
-    split. intros m e x s L; rewrite N in L; discriminate.
-    intros S _ _ m e x _ L; rewrite N in L; discriminate.
+    split; [split; [|split]|]; auto.
+    - intros m e x s L; rewrite N in L; discriminate.
+    - intros m e x s L; rewrite N in L; discriminate.
+    - intros S _ _ m e x _ L; rewrite N in L; discriminate.
   Qed.
 
   Lemma run_preserves : forall c fs o now, CacheOK c -> GenBound c now -> SideOK c o fs -> FSOK fs ->
     CacheOK (snd (warm c fs o now)) /\ GenBound (snd (warm c fs o now)) (Datatypes.S now).
   Proof.
     intros c fs o now [K HC] HB [HP HS] HFS. unfold Model.warm, Model.run_b. destruct (blocked c o fs) eqn:B; simpl.
-    - split. exists K; apply restamp_ok; auto. intros m e H. apply (restamp_gen c o fs now HB) in H. lia.
+    - split. exists K; apply restamp_ok; auto; apply HP. intros m e H. apply (restamp_gen c o fs now HB) in H. lia.
     - pose proof (not_blocked_NB K c o fs HC HFS B) as HNB.
       destruct (run_inv K c fs o now HC HB HP HS HFS HNB) as [_ [_ [_ [_ [HC' [_ HRG]]]]]]. split; auto.
       intros m e H. destruct (HRG _ _ H) as [X|[X _]]; lia.
   Qed.
 
-  Lemma warm_eq_cold : forall c fs o n n', CacheOK c -> GenBound c n -> SideOK c o fs -> FSOK fs ->
+  Lemma warm_eq_cold : forall c fs o n n', CacheOK c -> GenBound c n -> SideOK c o fs -> ProgOK o fs -> FSOK fs ->
     output fs (warm c fs o n) = output fs (cold fs o n').
   Proof.
-    intros c fs o n n' [K HC] HB [HP HS] HFS. unfold Model.warm, Model.cold, Model.run_b.
-    destruct CacheOK_empty as [K0 HC0]. destruct (SideOK_empty o fs) as [HP0 HS0].
+    intros c fs o n n' [K HC] HB [HP HS] HPG HFS. unfold Model.warm, Model.cold, Model.run_b.
+    destruct CacheOK_empty as [K0 HC0]. destruct (SideOK_empty o fs HPG) as [HP0 HS0].
     rewrite (blocked_same K c K0 empty_store o fs HC HC0 HFS).
     destruct (blocked empty_store o fs) eqn:B; unfold output; simpl; auto.
     assert (NBfs : NB fs) by (eapply (not_blocked_NB K0 empty_store); eauto).
@@ -1124,12 +1171,124 @@ Section Correct.
   Qed.
 
   Lemma history_warm_eq_cold : forall h fs o n',
-    HistOK empty_store 0 h -> SideOK (runs empty_store 0 h) o fs -> FSOK fs ->
+    HistOK empty_store 0 h -> SideOK (runs empty_store 0 h) o fs -> ProgOK o fs -> FSOK fs ->
     output fs (warm (runs empty_store 0 h) fs o (length h)) = output fs (cold fs o n').
   Proof.
-    intros h fs o n' HH HS HFS.
+    intros h fs o n' HH HS HPG HFS.
     destruct (runs_ok h empty_store 0 CacheOK_empty (GenBound_empty 0) HH) as [A B]. simpl in B.
     apply warm_eq_cold; auto.
+  Qed.
+  (* ---- cache_is_function_of_inputs: what a run leaves in the cache for the modules of the program is determined by
+          the environment it computed (reflection invariant), hence - by runs_agree - by (files, options) alone *)
+  Definition Refl (fs : FS) (o : opts) (env : penv) (c' : store) : Prop :=
+    forall m p e x s, lookup env m = Some p -> s_meta c' m = Some e -> s_ex c' m = Some x -> lookup fs m = Some s ->
+      m_hash e = content_of m s /\ m_ihash e = p_hash p /\ (if ign_of m s o then [] else x_errors x) = p_errors p.
+  Definition Inv2 (c : store) (fs : FS) (o : opts) (done : list (list modid)) (st : penv * store) : Prop :=
+    Refl fs o (fst st) (snd st) /\
+    (forall m, ~ In m (concat done) -> s_meta (snd st) m = s_meta (restamp c o fs) m /\ s_ex (snd st) m = s_ex c m).
+
+  Lemma restamp_fields : forall c o fs m e' e x, s_meta (restamp c o fs) m = Some e' -> load_meta c o fs m = Some (e, x) ->
+    m_hash e' = m_hash e /\ m_ihash e' = m_ihash e.
+  Proof.
+    intros c o fs m e' e x H1 L. simpl in H1. rewrite L in H1.
+    pose proof (load_spec _ _ _ _ _ _ L) as [s [Hs [F _]]]. apply find_spec in F as [F _]. rewrite Hs in H1.
+    destruct (Nat.eqb (m_stamp e) s); [rewrite F in H1|]; injection H1 as <-; auto.
+  Qed.
+
+  Lemma process_scc_inv2 : forall K c o fs now L1 S L2 st,
+    StoreOK K c -> Reuse c o fs -> FSOK fs -> sccs_of (depmap c o fs) = L1 ++ S :: L2 ->
+    Inv c fs o now L1 st -> Inv2 c fs o L1 st ->
+    Inv2 c fs o (L1 ++ [S]) (process_scc c o fs now (depmap c o fs) st S).
+  Proof.
+    intros K c o fs now L1 S L2 [env c'] HC HP HFS HL [Hdom [_ [_ [_ [_ [Hfr _]]]]]] [HR HF2]. simpl in *.
+    destruct (step_facts _ _ _ _ _ _ _ _ HC HP HFS HL Hdom) as [SinG [Sdisj [SND _]]].
+    assert (CC : concat (L1 ++ [S]) = concat L1 ++ S) by (rewrite concat_app; simpl; rewrite app_nil_r; auto).
+    unfold Model.process_scc. destruct (scc_fresh c o fs (depmap c o fs) env S) eqn:F; unfold Inv2; simpl; rewrite CC.
+    - split.
+      + intros m p e x s Hp He Hx Hs. destruct (lookup env m) as [q|] eqn:Q.
+        * erewrite lookup_app_l in Hp by eauto. inversion Hp; subst q. eapply HR; eauto.
+        * rewrite lookup_app_r in Hp by auto.
+          assert (Hm : In m S).
+          { apply lookup_Some_dom in Hp. rewrite map_map in Hp; simpl in Hp. rewrite map_id in Hp. auto. }
+          rewrite (lookup_map_fn _ (cached_pm c o fs) S m Hm) in Hp. inversion Hp; subst p.
+          destruct (fresh_parts _ _ _ _ _ _ _ F Hm) as [F1 _]. destruct (is_fresh_spec _ _ _ _ F1) as [e0 [x0 [L0 _]]].
+          destruct (load_ok _ _ _ _ _ _ _ HC L0) as [s0 [d0 [Hs0 [_ [Hx0 [Hd0 [_ [Hh0 _]]]]]]]].
+          rewrite Hs in Hs0; inversion Hs0; subst s0.
+          destruct (HF2 m) as [A B]. { rewrite <- Hdom. auto. }
+          rewrite A in He. rewrite B, Hx0 in Hx. inversion Hx; subst x0.
+          destruct (restamp_fields _ _ _ _ _ _ _ He L0) as [R1 R2].
+          rewrite (cached_pm_eq _ _ _ _ _ _ _ _ L0 Hd0 Hs). simpl. repeat split; congruence.
+      + intros m Hm. apply HF2. intro; apply Hm; apply in_or_app; auto.
+    - set (R := analyze S (src_of fs) o (ienv env)).
+      set (env' := env ++ map (fun m => (m, fresh_pm fs o R m)) S).
+      set (dm := depmap c o fs).
+      set (cf := fold_left (write_module c o fs now dm S env' R) S c').
+      destruct (write_fold_char K c o fs now dm S env' R S c' HC SND) as [W1 W2].
+      { intros m Hm. apply Hfr. rewrite <- Hdom. auto. }
+      { intros m Hm. split. apply inG_lookup; auto. apply an_nonzero. }
+      fold cf in W1, W2. split.
+      + intros m p e x s Hp He Hx Hs. destruct (in_dec Nat.eq_dec m S) as [Hm|Hm].
+        * assert (lookup env m = None) by (apply lookup_None; auto).
+          unfold env' in Hp. rewrite lookup_app_r in Hp by auto.
+          rewrite (lookup_map_fn _ (fun m0 => fresh_pm fs o R m0) S m Hm) in Hp. inversion Hp; subst p.
+          destruct (W2 m s Hm Hs) as [[A _]|[d [A1 [A2 [A3 A4]]]]]; [congruence|].
+          rewrite He in A3. rewrite Hx in A4. inversion A3; inversion A4; subst. simpl.
+          unfold Model.ign_now. rewrite Hs. destruct (ign_of m s o); auto.
+        * destruct (W1 m Hm) as [B1 [B2 _]]. rewrite B1 in He. rewrite B2 in Hx.
+          destruct (lookup env m) as [q|] eqn:Q.
+          -- unfold env' in Hp. erewrite lookup_app_l in Hp by eauto. inversion Hp; subst q. eapply HR; eauto.
+          -- exfalso. unfold env' in Hp. rewrite lookup_app_r in Hp by auto. apply lookup_Some_dom in Hp.
+             rewrite map_map in Hp; simpl in Hp. rewrite map_id in Hp. auto.
+      + intros m Hm. destruct (W1 m) as [B1 [B2 _]]. intro; apply Hm; apply in_or_app; auto.
+        rewrite B1, B2. apply HF2. intro; apply Hm; apply in_or_app; auto.
+  Qed.
+
+  Lemma process_all_inv2 : forall K c o fs now L2 L1 st,
+    StoreOK K c -> Reuse c o fs -> SccFresh c o fs -> FSOK fs -> NB fs ->
+    sccs_of (depmap c o fs) = L1 ++ L2 -> Inv c fs o now L1 st -> Inv2 c fs o L1 st ->
+    Inv2 c fs o (L1 ++ L2) (fold_left (process_scc c o fs now (depmap c o fs)) L2 st).
+  Proof.
+    intros K c o fs now L2. induction L2 as [|S L2 IH]; simpl; intros L1 st HC HP HSF HFS HNB HL HI HI2.
+    - rewrite app_nil_r; auto.
+    - replace (L1 ++ S :: L2) with ((L1 ++ [S]) ++ L2) in * by (rewrite <- app_assoc; auto).
+      assert (HL' : sccs_of (depmap c o fs) = L1 ++ S :: L2) by (rewrite <- app_assoc in HL; exact HL).
+      apply IH; auto. eapply process_scc_inv; eauto. eapply process_scc_inv2; eauto.
+  Qed.
+
+  Lemma run_refl : forall K c fs o now, StoreOK K c -> GenBound c now -> Reuse c o fs -> SccFresh c o fs ->
+    FSOK fs -> NB fs -> Refl fs o (fst (run c fs o now)) (snd (run c fs o now)).
+  Proof.
+    intros K c fs o now HC HB HP HS HFS HNB. unfold Model.run.
+    apply (process_all_inv2 K c o fs now (sccs_of (depmap c o fs)) [] ([], restamp c o fs)); auto.
+    - unfold Inv; simpl. split; [reflexivity|]. split; [intros S m HS'; inversion HS'|].
+      split; [intros m Hm; inversion Hm|]. split; [intros m s d Hm; inversion Hm|].
+      split; [exists K; apply restamp_ok; auto; apply HP|]. split; auto.
+      intros m0 e0 H5. left. eapply restamp_gen; eauto.
+    - split. intros m p e x s Hp; discriminate. intros m _. split; auto.
+  Qed.
+
+  (* after a run, the source hash, the interface hash and the (effective) error_lines recorded for every module of the
+     program do not depend on the cache the run started from: they are a function of (files, options) *)
+  Lemma cache_function : forall K1 c1 K2 c2 fs o n1 n2,
+    StoreOK K1 c1 -> GenBound c1 n1 -> Reuse c1 o fs -> SccFresh c1 o fs ->
+    StoreOK K2 c2 -> GenBound c2 n2 -> Reuse c2 o fs -> SccFresh c2 o fs -> FSOK fs -> NB fs ->
+    forall m s e1 x1 e2 x2, lookup fs m = Some s ->
+      s_meta (snd (run c1 fs o n1)) m = Some e1 -> s_ex (snd (run c1 fs o n1)) m = Some x1 ->
+      s_meta (snd (run c2 fs o n2)) m = Some e2 -> s_ex (snd (run c2 fs o n2)) m = Some x2 ->
+      m_hash e1 = m_hash e2 /\ m_ihash e1 = m_ihash e2 /\
+      (if ign_of m s o then [] else x_errors x1) = (if ign_of m s o then [] else x_errors x2).
+  Proof.
+    intros K1 c1 K2 c2 fs o n1 n2 HC1 HB1 HP1 HS1 HC2 HB2 HP2 HS2 HFS HNB m s e1 x1 e2 x2 Hs M1 X1 M2 X2.
+    destruct (runs_agree K1 c1 K2 c2 fs o n1 n2 HC1 HB1 HP1 HS1 HC2 HB2 HP2 HS2 HFS HNB) as [DOM AG].
+    assert (G : inG fs m = true) by (apply inG_lookup; eauto).
+    destruct (DOM m G) as [[p1 Hp1] [p2 Hp2]].
+    destruct (run_refl K1 c1 fs o n1 HC1 HB1 HP1 HS1 HFS HNB m p1 e1 x1 s Hp1 M1 X1 Hs) as [A1 [A2 A3]].
+    destruct (run_refl K2 c2 fs o n2 HC2 HB2 HP2 HS2 HFS HNB m p2 e2 x2 s Hp2 M2 X2 Hs) as [B1 [B2 B3]].
+    destruct (AG m p1 p2 Hp1 Hp2) as [I E].
+    destruct (run_inv K1 c1 fs o n1 HC1 HB1 HP1 HS1 HFS HNB) as [Hd1 [HG1 _]].
+    destruct (run_inv K2 c2 fs o n2 HC2 HB2 HP2 HS2 HFS HNB) as [Hd2 [HG2 _]].
+    pose proof (env_hash fs o _ _ m p1 HG1 Hd1 Hp1) as Q1. pose proof (env_hash fs o _ _ m p2 HG2 Hd2 Hp2) as Q2.
+    repeat split; congruence.
   Qed.
 End Correct.
 
@@ -1138,8 +1297,10 @@ From C02 Require Statement.
 
 Section Packaged.
   Variable content_of : modid -> stamp -> content.
+  Variable view_of : modid -> stamp -> content.
   Variable imports : modid -> content -> opts -> list modid.
   Variable probes : modid -> content -> opts -> list modid.
+  Variable implicits : modid -> content -> opts -> list modid.
   Variable analyze : list modid -> (modid -> content) -> opts -> (modid -> option ihash) -> modid -> result.
   Variable sccs_of : list (modid * list modid) -> list (list modid).
   Variable reach : list (modid * list modid) -> modid -> modid -> bool.
@@ -1152,12 +1313,15 @@ Section Packaged.
   Record AnalysisContract : Prop := {
     ac_ext : forall S S' src src' o env env',
       (forall x, In x S <-> In x S') -> (forall x, In x S -> src x = src' x) ->
-      (forall m d, In m S -> ext_reads imports probes analyze S src o env m d -> env d = env' d) ->
+      (forall m d, In m S -> ext_reads imports probes implicits analyze S src o env m d -> env d = env' d) ->
       forall m, In m S -> analyze S src o env m = analyze S' src' o env' m;
     ac_indirect_dom : forall S src o env m d,
       In m S -> In d (r_indirect (analyze S src o env m)) -> In d S \/ env d <> None;
     ac_noself : forall S src o env m, ~ In m (r_indirect (analyze S src o env m));
-    ac_nonzero : forall S src o env m, r_iface (analyze S src o env m) <> 0 }.
+    ac_nonzero : forall S src o env m, r_iface (analyze S src o env m) <> 0;
+    ac_implicit_reported : forall S src o env m d,
+      In m S -> In d (implicits m (src m) o) -> ~ In d S -> env d <> None ->
+      In d (imports m (src m) o ++ probes m (src m) o) \/ In d (r_indirect (analyze S src o env m)) }.
 
   (* The graph-algorithm contract: SCCs listed in dependency order; the decomposition as a set of sets depends only on
      the edge sets; reach/thash as used by verify_transitive_deps; reported indirect deps are reachable. *)
@@ -1172,12 +1336,13 @@ Section Packaged.
     gc_indirect_reach : forall dm S src o env m d,
       In S (sccs_of dm) -> In m S -> In d (r_indirect (analyze S src o env m)) -> reach dm m d = true }.
 
-  Notation CacheOK := (CacheOK content_of imports probes analyze reach thash blocker).
-  Notation SideOK := (SideOK content_of imports probes sccs_of ign_of).
-  Notation HistOK := (HistOK content_of imports probes analyze sccs_of reach sdo_of thash ign_of blocker).
-  Notation warm := (Model.warm content_of imports probes analyze sccs_of reach sdo_of thash ign_of blocker).
-  Notation cold := (Model.cold content_of imports probes analyze sccs_of reach sdo_of thash ign_of blocker).
-  Notation runs := (Model.runs content_of imports probes analyze sccs_of reach sdo_of thash ign_of blocker).
+  Notation CacheOK := (CacheOK content_of view_of imports probes implicits analyze reach thash blocker).
+  Notation SideOK := (SideOK content_of view_of imports probes implicits sccs_of reach ign_of).
+  Notation ProgOK := (ProgOK content_of view_of imports probes implicits sccs_of reach ign_of).
+  Notation HistOK := (HistOK content_of view_of imports probes implicits analyze sccs_of reach sdo_of thash ign_of blocker).
+  Notation warm := (Model.warm content_of view_of imports probes analyze sccs_of reach sdo_of thash ign_of blocker).
+  Notation cold := (Model.cold content_of view_of imports probes analyze sccs_of reach sdo_of thash ign_of blocker).
+  Notation runs := (Model.runs content_of view_of imports probes analyze sccs_of reach sdo_of thash ign_of blocker).
 
   Lemma p_run_preserves : AnalysisContract -> GraphContract ->
     forall c fs o now, CacheOK c -> GenBound c now -> SideOK c o fs -> FSOK fs ->
@@ -1185,28 +1350,69 @@ Section Packaged.
   Proof. intros [] []. eapply run_preserves; eauto. Qed.
 
   Lemma p_warm_eq_cold : AnalysisContract -> GraphContract ->
-    forall c fs o n n', CacheOK c -> GenBound c n -> SideOK c o fs -> FSOK fs ->
+    forall c fs o n n', CacheOK c -> GenBound c n -> SideOK c o fs -> ProgOK o fs -> FSOK fs ->
     output fs (warm c fs o n) = output fs (cold fs o n').
   Proof. intros [] []. eapply warm_eq_cold; eauto. Qed.
 
   Lemma p_history_partial : AnalysisContract -> GraphContract ->
     forall (h : list (FS * opts)) (fs : FS) (o : opts) (n' : nat),
-      HistOK empty_store 0 h -> SideOK (runs empty_store 0 h) o fs -> FSOK fs ->
+      HistOK empty_store 0 h -> SideOK (runs empty_store 0 h) o fs -> ProgOK o fs -> FSOK fs ->
       output fs (warm (runs empty_store 0 h) fs o (length h)) = output fs (cold fs o n').
-  Proof. intros [] [] h fs o n' Hh HS Hfs. eapply history_warm_eq_cold; eauto. Qed.
+  Proof. intros [] [] h fs o n' Hh HS HPG Hfs. eapply history_warm_eq_cold; eauto. Qed.
+
+  (* cache_is_function_of_inputs *)
+  Lemma p_cache_function : AnalysisContract -> GraphContract ->
+    forall c1 c2 fs o n1 n2, CacheOK c1 -> GenBound c1 n1 -> SideOK c1 o fs -> CacheOK c2 -> GenBound c2 n2 -> SideOK c2 o fs ->
+      FSOK fs -> NB content_of blocker fs ->
+      forall m s e1 x1 e2 x2, lookup fs m = Some s ->
+        s_meta (snd (Model.run content_of view_of imports probes analyze sccs_of reach sdo_of thash ign_of c1 fs o n1)) m = Some e1 ->
+        s_ex (snd (Model.run content_of view_of imports probes analyze sccs_of reach sdo_of thash ign_of c1 fs o n1)) m = Some x1 ->
+        s_meta (snd (Model.run content_of view_of imports probes analyze sccs_of reach sdo_of thash ign_of c2 fs o n2)) m = Some e2 ->
+        s_ex (snd (Model.run content_of view_of imports probes analyze sccs_of reach sdo_of thash ign_of c2 fs o n2)) m = Some x2 ->
+        m_hash e1 = m_hash e2 /\ m_ihash e1 = m_ihash e2 /\
+        (if ign_of m s o then [] else x_errors x1) = (if ign_of m s o then [] else x_errors x2).
+  Proof.
+    intros [] [] c1 c2 fs o n1 n2 [K1 H1] B1 [P1 S1] [K2 H2] B2 [P2 S2] HFS HNB. eapply cache_function; eauto.
+  Qed.
 
   (* the side conditions are decidable: the boolean functions of Model.v imply them *)
   Lemma probe_fresh_sound : forall c o fs,
-    Model.probe_fresh content_of probes ign_of c o fs = true -> ProbeFresh content_of probes ign_of c o fs.
+    Model.probe_fresh content_of view_of probes ign_of c o fs = true -> ProbeFresh content_of view_of probes ign_of c o fs.
   Proof.
     intros c o fs H m e x s L Hs d Hd HG. unfold Model.probe_fresh in H. rewrite forallb_forall in H.
     specialize (H (m, s) (lookup_In _ _ _ _ Hs)). simpl in H. rewrite L in H. rewrite forallb_forall in H.
     specialize (H d Hd). rewrite HG in H. simpl in H. apply mem_In; auto.
   Qed.
 
+  Lemma kind_stable_sound : forall c o fs,
+    Model.kind_stable content_of view_of ign_of c o fs = true -> KindStable content_of view_of ign_of c o fs.
+  Proof.
+    intros c o fs H m e x s L Hs. unfold Model.kind_stable in H. rewrite forallb_forall in H.
+    specialize (H (m, s) (lookup_In _ _ _ _ Hs)). simpl in H. rewrite L in H. apply Nat.eqb_eq; auto.
+  Qed.
+
+  Lemma group_of_spec : forall (L : list (list modid)) S m, NoDup (concat L) -> In S L -> In m S -> Model.group_of L m = S.
+  Proof.
+    intros L S m ND HS Hm. unfold Model.group_of. destruct (find (fun G => mem m G) L) as [G|] eqn:F.
+    - apply find_some in F as [F1 F2]. apply mem_In in F2. eapply group_unique; eauto.
+    - exfalso. pose proof (find_none _ _ F S HS) as X. simpl in X. apply mem_false in X. auto.
+  Qed.
+
+  Lemma implicit_stable_sound : forall c o fs, NoDup (concat (sccs_of (Model.depmap content_of view_of imports probes ign_of c o fs))) ->
+    Model.implicit_stable content_of view_of imports probes implicits sccs_of reach ign_of c o fs = true ->
+    ImplicitStable content_of view_of imports probes implicits sccs_of reach ign_of c o fs.
+  Proof.
+    intros c o fs ND H m s d Hs Hd HG. unfold Model.implicit_stable in H. rewrite forallb_forall in H.
+    specialize (H (m, s) (lookup_In _ _ _ _ Hs)). simpl in H. rewrite forallb_forall in H. specialize (H d Hd).
+    rewrite HG in H. simpl in H. apply andb_true_iff in H as [H1 H2]. split.
+    - intros S HS Hm. rewrite (group_of_spec _ S m ND HS Hm) in H1. apply orb_true_iff in H1 as [X|X]; auto.
+      left. apply mem_In; auto.
+    - intros e x L. rewrite L in H2. apply mem_In; auto.
+  Qed.
+
   Lemma scc_stable_sound : forall c o fs,
-    Model.scc_stable content_of imports probes sccs_of ign_of c o fs = true ->
-    SccFresh content_of imports probes sccs_of ign_of c o fs.
+    Model.scc_stable content_of view_of imports probes sccs_of ign_of c o fs = true ->
+    SccFresh content_of view_of imports probes sccs_of ign_of c o fs.
   Proof.
     intros c o fs H S HS ALLV m e x Hm L. unfold Model.scc_stable in H. rewrite forallb_forall in H.
     specialize (H S HS). apply orb_true_iff in H as [H|H].
